@@ -151,7 +151,7 @@ pub fn accessors_differ(resp: &Response) -> Option<String> {
     for f in resp.frames().flatten() {
         let base: Vec<(String, String)> = f.fields().map(|(k, v)| (k.to_string(), v.to_string())).collect();
         let n = base.len();
-        let show = |l: &[(String, String)]| l.iter().map(|(k, v)| format!("{k}={v}")).collect::<Vec<_>>().join(",");
+        let show = |l: &[(String, String)]| l.iter().map(|(k, v)| format!("{k:?}={v:?}")).collect::<Vec<_>>().join(",");
         let hint_bad = |it: (usize, Option<usize>), len: usize| it.0 > len || it.1.map_or(false, |h| h < len);
         if hint_bad(f.fields().size_hint(), n) || hint_bad(f.into_iter().size_hint(), n) || hint_bad(f.clone().into_iter().size_hint(), n) {
             return Some(format!("size_hint of a field iterator excludes the {n} fields it yields [{}]", show(&base)));
